@@ -144,10 +144,12 @@ ROUND5 = {
  "C08": " Round 5: job-control slice - `set -m` with a controlling terminal, 8 job shapes (inner subshells, substitutions, asynchronous lists, pipelines, nested jobs) x descriptor limits {none, 10, 11, 12, 16} x 8 mutators, FIFO and random schedules: parent's facets (descriptors included) before == after every job, and the terminal's foreground process group is the job's while it runs and the shell's afterwards.",
  "C09": " Round 5: permission bits of files created by a redirection (666 & ~umask, six masks); in every third scenario the operands are spelled through command substitutions / backquotes / ${v:-X}, i.e. expanded with the descriptor table as the earlier redirections of the list left it.",
  "C10": " Round 5 (stock-shell slice): the EXIT trap set in six spellings, some together with INT/QUIT in one `trap` command while the shell was started with those signals ignored; four errexit-exempt cases through an alias, condition subshells and negated groups (21 cases in all).",
+ "C11": " Round 5 (part F): the shell's own SigIgn after `set -m` / `set +m` alone and combined with other options in every order (28 runs, -i and -i +m): TSTP/TTIN/TTOU ignored exactly while job control is on; failed exec followed by TERM/QUIT/INT with job control off and on (18 runs). Every stock-shell run starts from default signal dispositions, whatever the check inherited.",
+ "C13": " Round 5: exit-status sweep with children ending through exit / return (11 kinds); pipelines of 3-4 stages with standard output and/or input closed; interactive slice - 14 child-starting scripts on standard input run by -i, -i +m and -m shells under FIFO and random schedules, compared with the non-interactive run.",
  "C14": " Round 5: `<<-` here-documents (quoted and expanding) with every mix of tab/space indentation and indented delimiters; two writers sharing one pipe end among the virtual scenarios (length pinned).",
  "C16": " Round 5: allexport slice - 9 forms of assignment (plain, for, ${v=w}, ${v:=w}, $((v=7)), read, getopts, repeated, nested for) x 5 contexts x option on/off: export attribute while the option is on and after it is turned off.",
  "C18": " Round 5: pipelines whose first stage is still busy when the last has finished and then reads the script's next line (12 forms); here-document operator on a line that ends with `|` (8 forms).",
- "C19": " Round 5: AddressSanitizer build of the harness (nightly, built by ./check): 1000 / 20000 of the generated real-system runs and 22 fixed FFI-surface scripts (4.8 kB working directory, 200-entry directories with 250-byte and non-UTF-8 names, 4096 arguments and 200 exported variables through execve, ~user, command -p, every ulimit resource, times, traps on every signal incl. real-time, 30 concurrent children, symlinks with cd -P/-L, set -m without a terminal, ENOEXEC fall-back ...) run under ASan in both tiers and under memcheck as well in thorough; verdict = no sanitizer report, no death by signal.",
+ "C19": " Round 5: AddressSanitizer build of the harness (nightly, built by ./check): 1000 / 20000 of the generated real-system runs and 22 fixed FFI-surface scripts (4.8 kB working directory, 200-entry directories with 250-byte and non-UTF-8 names, 4096 arguments and 200 exported variables through execve, ~user, command -p, every ulimit resource, times, traps on every signal incl. real-time, 30 concurrent children, symlinks with cd -P/-L, set -m without a terminal, ENOEXEC fall-back ...) run under ASan in both tiers and under memcheck as well in thorough; verdict = no sanitizer report, no death by signal. Self-sent URG / WINCH / CHLD / CONT among the statements; a real run that sits idle is repeated once before it is reported as blocked; the real shell starts from default signal dispositions.",
  "C20": " Round 5 (part C): groups on the option terminator followed by `--` or an option-like operand (trap -- -- USR2, trap -- -p USR2, unset -- -- x, set -- -- a).",
 }
 for k, t in ROUND5.items():
